@@ -304,8 +304,23 @@ def close_datastore(ds):
           pass
 
 
+# Owner / study ids by index. On purpose some differ only by case or hold an SQL
+# LIKE wildcard where another holds a character ('s_' ~ 's0', 'S0' ~ 's0', 'o_' ~ 'o0'),
+# and some are prefixes of others: a store that matches names loosely mixes them up.
+OWNER_IDS = ('o0', 'o_', 'o2', 'O0')
+STUDY_IDS = ('s0', 's_', 'S0', 's01', 's%', 's5')
+
+
+def oid(o):
+  return OWNER_IDS[int(o) % len(OWNER_IDS)]
+
+
+def sid(d):
+  return STUDY_IDS[int(d) % len(STUDY_IDS)]
+
+
 def study_name(o, d):
-  return f'owners/o{o}/studies/s{d}'
+  return f'owners/{oid(o)}/studies/{sid(d)}'
 
 
 # ------------------------------------------------------------------ the view
@@ -316,7 +331,7 @@ class View:
   def __init__(self, sv, owners=(0, 1)):
     self.studies = {}
     for o in owners:
-      r = call(sv.ListStudies, vs.ListStudiesRequest(parent=f'owners/o{o}'))
+      r = call(sv.ListStudies, vs.ListStudiesRequest(parent=f'owners/{oid(o)}'))
       if r[0] != 'ok':
         continue
       for st in r[1].studies:
@@ -339,7 +354,7 @@ def resolve_study(sel, view):
     return study_name(sel['o'], sel['d'])
   names = sorted(view.studies)
   if sel.get('missing') or not names:
-    return f'owners/o{sel.get("i", 0) % 2}/studies/missing'
+    return f'owners/{oid(sel.get("i", 0) % 2)}/studies/missing'
   return names[sel['i'] % len(names)]
 
 
@@ -428,12 +443,12 @@ def build_request(c, cfg):
   if kind == 'CreateStudy':
     st = study_pb2.Study(study_spec=study_spec(cfg), state=SS_INV[c['state']])
     if not c.get('empty'):
-      st.display_name = f's{c["display"]}'
-    return 'CreateStudy', vs.CreateStudyRequest(parent=f'owners/o{c["owner"]}', study=st)
+      st.display_name = sid(c['display'])
+    return 'CreateStudy', vs.CreateStudyRequest(parent=f'owners/{oid(c["owner"])}', study=st)
   if kind == 'GetStudy':
     return 'GetStudy', vs.GetStudyRequest(name=c['study'])
   if kind == 'ListStudies':
-    return 'ListStudies', vs.ListStudiesRequest(parent=f'owners/o{c["owner"]}')
+    return 'ListStudies', vs.ListStudiesRequest(parent=f'owners/{oid(c["owner"])}')
   if kind == 'DeleteStudy':
     return 'DeleteStudy', vs.DeleteStudyRequest(name=c['study'])
   if kind == 'SetStudyState':
@@ -483,7 +498,7 @@ def build_request(c, cfg):
       req.final_measurement.CopyFrom(meas(vals))
     if 'infeasible' in ck:
       req.trial_infeasible = True
-      req.infeasible_reason = 'bad'
+      req.infeasible_reason = c.get('reason', 'bad')  # '' = declared infeasible without giving a reason
     return 'CompleteTrial', req
   if kind == 'StopTrial':
     return 'StopTrial', vs.StopTrialRequest(name=tname)
@@ -518,7 +533,7 @@ def snapshot(sv, owners=(0, 1), op_names=(), include_ops=True):
   """Full observable state through the public API."""
   out = {'studies': {}, 'ops': {}, 'owners': {}}
   for o in owners:
-    r = call(sv.ListStudies, vs.ListStudiesRequest(parent=f'owners/o{o}'))
+    r = call(sv.ListStudies, vs.ListStudiesRequest(parent=f'owners/{oid(o)}'))
     if r[0] != 'ok':
       out['owners'][o] = ('err', r[1])
       continue
